@@ -346,8 +346,9 @@ SD_B = 'sound::streaming::data::StreamingSoundData::<Error>'
 
 def _sd_norm(d):
     import re
-    d = d.replace('(*self)', 'self')
-    d = re.sub(r'\(\*+_1\)?\.\^self\)?', 'self', d)
+    d = re.sub(r'\(\*+_1\)\.\^self|\*+_1\.\^self|_1\.\^self', 'self', d)
+    for _ in range(3):
+        d = re.sub(r'(?<![\w>])\(\*?self\)', 'self', d)
     d = d.replace('core::slice::<impl [T]>::len(<std::sync::Arc<T, A> as std::ops::Deref>::deref(&self.frames))', 'FILE_LEN').replace('core::slice::<impl [T]>::len(&(*self.frames))', 'FILE_LEN')
     d = re.sub(r'(?:<[^<>]*as )?sound::streaming::decoder::Decoder>?::num_frames\((?:[^()]|\((?:[^()]|\([^()]*\))*\))*\)', 'FILE_LEN', d)
     d = re.sub(r'(?:<[^<>]*as )?sound::streaming::decoder::Decoder>?::sample_rate\((?:[^()]|\((?:[^()]|\([^()]*\))*\))*\)', 'RATE', d)
